@@ -15,5 +15,6 @@ CONSTANTS
   SignalOnInsert = TRUE
   FirstSighting = TRUE
   SeedAtomic = TRUE
+  RegisterInThunk = TRUE
 INVARIANTS TypeOK MutexOK P_C18_Replay P_C18_Alternate P_C18_Elide MonitorsFaithful M_C18_Replay M_C18_Alternate M_C18_Elide P_C18_LogShape P_C18_WakePending
 CHECK_DEADLOCK FALSE
